@@ -17,6 +17,7 @@ import json, os, random
 from . import common as C
 from . import units_a_tables as T
 from . import units_a_adapter as A
+from . import c03_fraction as FD
 
 PID = "C03"
 LEAD_TAGS = {"prefix_two_letter", "foreign_lead_char", "extra_lead_char"}
@@ -549,5 +550,9 @@ def run(replay=None):
                       "prefix factors are the powers of ten of the published prefix table (docs/_static/tables/prefixes.csv)",
                       "`m+2`, `5.`, `.5` and division by a literal zero are unspecified; factors outside 1e-300..1e300 are not compared",
                       "float pow/multiplication of NumPy/Python is the ground truth for evaluating a factor term (rel 1e-12)"]
+    # growth beyond the property: Fraction / Dimensions (spec/FractionDim*.tla); notes only
+    V.cov["fraction_dimensions"] = FD.run(V, wd)
+    V.assumptions.append("coverage.fraction_dimensions (classes Fraction and Dimensions; spec/FractionDim.tla, FractionDimMC.tla) is growth of the "
+                         "specification beyond the property: its disagreements are notes, its counts are not included in states/transitions/evaluations")
     C.cleanup(PID)
     return V.finish()
